@@ -60,6 +60,16 @@ func c12Scenarios(tier string) []*hist.Scenario {
 		}
 	}
 	each(presOps[:2], 2, 1, 2, 2, 1)
+	// a participant whose last sync was push-only and who is then deactivated
+	// (the server builds the presence clear itself; seeded change C12-4)
+	for _, op := range []string{"p.set1", "p.set1+o.set1"} {
+		out = append(out, &hist.Scenario{
+			Name: fmt.Sprintf("c12/presence/pushonly/%s/N2K1Y2D1", op),
+			N:    2, Init: []string{"init.o"}, Alphabet: []string{op}, K: 1, Y: 2, D: 1, Deact: true, PushOnly: true,
+			InitialPresence: true,
+			Cfg:             hist.Config{Threshold: hist.Big, Interval: hist.Big, LateOpposite: true},
+		})
+	}
 	each(presOps[:1], 2, 0, 2, 2, 2)
 	if tier == "quick" {
 		return out
